@@ -331,6 +331,49 @@ func c20Gen(tier string, rng *rand.Rand, emit func(string)) map[string]interface
 		out("reuse_slice_random", fmt.Sprintf("ru %s %s: %s", strings.Join(steps, ","), c20ShowInts(in), strings.Join(fs, " ; ")))
 	}
 
+	// ---- results are values: pass-through stages (identity, Take/Drop as views, in-place sorts) so that the result
+	// of a composed function can be a view of whatever buffer the combinator handed to the innermost stage; run on A,
+	// keep the result, run on B, re-read result A (seeded C20-w4v1: Compose recycled one argument buffer)
+	passFns := []string{"id", "tk2", "dk1", "so", "sd", "r", "a4.1"}
+	rrSteps := []string{"C", "P", "I", "J", "g1", "h1", "g2", "h2"}
+	c20Lists(passFns, 1, 3, func(fs []string) {
+		body := strings.Join(fs, " ; ")
+		for _, st := range rrSteps {
+			if (st == "g2" || st == "h2") && len(fs) < 3 {
+				continue
+			}
+			out("result_retained", fmt.Sprintf("rr %s 5,1,9,4 2,8,3,7: %s", st, body))
+		}
+	})
+	rrFns := append([]string{"id", "id", "tk1", "tk2", "tk3", "dk1", "dk2", "so", "sd", "so", "sd"}, allFns...)
+	nRR := 600
+	if thorough {
+		nRR = 6000
+	}
+	for i := 0; i < nRR; i++ {
+		n := 1 + rng.Intn(6)
+		fs := make([]string, n)
+		for j := range fs {
+			fs[j] = rrFns[rng.Intn(len(rrFns))]
+			if fs[j] == "d" && j > 1 {
+				fs[j] = "id"
+			}
+		}
+		m := 1 + rng.Intn(3)
+		steps := make([]string, m)
+		for j := range steps {
+			steps[j] = []string{"C", "P", "I", "J", "g1", "g2", "g3", "h1", "h2", "h4"}[rng.Intn(10)]
+		}
+		mkIn := func() string {
+			in := make([]int, 1+rng.Intn(6))
+			for j := range in {
+				in[j] = rng.Intn(19) - 5
+			}
+			return c20ShowInts(in)
+		}
+		out("result_retained_random", fmt.Sprintf("rr %s %s %s: %s", strings.Join(steps, ","), mkIn(), mkIn(), strings.Join(fs, " ; ")))
+	}
+
 	// ---- adapters
 	for n := 1; n <= 6; n++ {
 		for l := 0; l <= 8; l++ {
